@@ -199,6 +199,9 @@ def run_rand_tuple(ctx, case):
     ctx.note(klass=f'n={n}', desc=['rand', n, sig], nontrivial=True, labels=[f'n={n}'])
     spf2 = _sp()
     ctx.require(tuple(spf2.get_number(n, 'base')) == tuple(base), 'get_number base')
+    got_default = spf2.get_number(n)
+    ctx.require(isinstance(got_default, (tuple, list)) and tuple(got_default) == tuple(base), 'get_number(n) without kind = the radix tuple (documented default)', f'{got_default!r}')
+    ctx.require(tuple(spf2.get_number(n, kind='base')) == tuple(base), 'get_number(kind=base) as keyword')
     ctx.require(spf2.get_number(n, 'order') == ref.sp_order(n), 'get_number order', f'n={n}')
     ctx.require(tuple(spf2.get_number(n, 'coset')) == tuple((4 ** i - 1) * 2 ** (2 * i - 1) for i in range(1, n + 1)), 'get_number coset')
     _check_tuple(ctx, t)
